@@ -1,0 +1,79 @@
+//go:build verif
+
+package ccall
+
+// Contracts for GoVC (see /verif/DESIGN.md). Comment-only: compiles to nothing.
+//
+// The local Broadcast bcast is a monitor for the local variables running and exitErr, which the worker
+// goroutines (closure $1 = callFunc) share with CallConcurrently. Ghost locals:
+//   spawned / finished  number of workers started / that have recorded their result
+//   nonnil / real       number of recorded results that are errors / errors other than context.Canceled
+//   reterr              the set of errors recorded so far
+// L1..L5 are the monitor invariants. "nil only after every function returned nil" is L1+L2 at the moment
+// the counters were sampled under the lock; "an error that some function actually returned" is L4.
+//
+//@ func CallConcurrently
+//@   props C17 C13
+//@   opt frame = skip
+//@   requires ctx != nil
+//@   localmonitor bcast guards running, exitErr
+//@   lghost spawned: int
+//@   lghost finished: int
+//@   lghost nonnil: int
+//@   lghost real: int
+//@   lghost reterr: set[ref]
+//@   lbounded running
+//@   linv L1: running == spawned - finished
+//@   linv L2: exitErr == nil ==> nonnil == 0
+//@   linv L3: real > 0 ==> exitErr != nil && exitErr != context.Canceled
+//@   linv L4: exitErr != nil ==> reterr[exitErr]
+//@   linv L5: 0 <= real && real <= nonnil
+//@   ghost init bcast: spawned := 0
+//@   ghost init bcast: finished := 0
+//@   ghost init bcast: nonnil := 0
+//@   ghost init bcast: real := 0
+//@   ghost init bcast: reterr := empty()
+//@   ensures allnil: result == nil && len(fns) > 1 ==> finished == spawned && nonnil == 0
+//@   ensures realerr: len(fns) > 1 && result != context.Canceled && result != nil ==> reterr[result]
+//@   ensures noswallow: len(fns) > 1 && result == nil ==> real == 0
+//@   ensures single: len(fns) == 1 ==> result == lastret(fns[0], 0) && calls(fns[0]) == old(calls(fns[0])) + 1
+//@   ensures cancelled: len(fns) >= 1 ==> cancelled(subCtx)
+//@   loop 1 invariant parked: waitCh != nil && gettime(waitCh) == lastcs()
+//@   assert select 1: selects(waitCh) && selects(done(ctx)) && waitCh != nil && gettime(waitCh) == lastcs()
+//
+//@ closure CallConcurrently$2
+//@   props C17
+//@   ghost go 1: spawned := spawned + 1
+//@   assert exit: waitCh != nil && waitCh == bcast.ch
+//@   loop 1 invariant count: running == spawned - finished
+//
+//@ closure CallConcurrently$3
+//@   props C17
+//@   assert exit: waitCh != nil && waitCh == bcast.ch && currRunning == running && currExitErr == exitErr
+//
+//@ func CallConcurrently$1
+//@   props C17 C13
+//@   opt frame = skip
+//@   localmonitor bcast guards running, exitErr
+//@   lghost spawned: int
+//@   lghost finished: int
+//@   lghost nonnil: int
+//@   lghost real: int
+//@   lghost reterr: set[ref]
+//@   lbounded running
+//@   linv L1: running == spawned - finished
+//@   linv L2: exitErr == nil ==> nonnil == 0
+//@   linv L3: real > 0 ==> exitErr != nil && exitErr != context.Canceled
+//@   linv L4: exitErr != nil ==> reterr[exitErr]
+//@   linv L5: 0 <= real && real <= nonnil
+//@   requires fn != nil
+//@   captured bcast != nil
+//@   ensures once: calls(fn) == old(calls(fn)) + 1
+//
+//@ closure CallConcurrently$1$1
+//@   props C17
+//@   assert exit: bcast.ch == nil
+//@   ghost exit: finished := finished + 1
+//@   ghost exit: nonnil := nonnil + ite(err != nil, 1, 0)
+//@   ghost exit: real := real + ite(err != nil && err != context.Canceled, 1, 0)
+//@   ghost exit: reterr := ite(err != nil, add(reterr, err), reterr)
